@@ -5,11 +5,14 @@ tools_seeded.py -- run the checks against the seeded defects in seeded/<name>/.
   tools_seeded.py verify <name>    confirm a candidate in a scratch worktree: the patch applies, the demo passes
                                    without and fails with it, the repository's relevant tests (meta.json: tests)
                                    still pass with it
-  tools_seeded.py run [<name>...]  for each seeded change: apply it to /repo, run the property's quick check,
-                                   undo it straight afterwards; prints a table and writes seeded/RESULTS.json
+  tools_seeded.py run [<name>...]  for each seeded change: apply it to a scratch worktree of /repo, run the property's
+                                   quick check against that tree (XRS_REPO), undo; prints a table and writes
+                                   seeded/RESULTS.json
+  tools_seeded.py benign [<name>...]  the same for the behaviour-preserving rewrites under benign/ (meta.json:
+                                   checks = the properties whose code is touched): any VIOLATION is a false alarm;
+                                   writes benign/RESULTS.json
 
-/repo is never left modified: the patch is reverted in a `finally`, and the script refuses to start when
-/repo's working tree is dirty.
+/repo itself is never modified.
 """
 import json
 import os
@@ -72,43 +75,53 @@ def verify(name):
     return ok
 
 
-def run(which):
-    rc, out = sh(["git", "-C", REPO, "status", "--porcelain", "--untracked-files=no"])
-    if out.strip():
-        print("refusing: /repo working tree is dirty\n" + out)
+def run(which, base=SEEDED, expect_clean=False):
+    """apply each change to a scratch worktree of /repo (never to /repo itself: other work may be reading it), run the
+    quick check(s) with XRS_REPO pointing at it, undo.  `expect_clean`: the changes are behaviour-preserving
+    rewrites, a VIOLATION is a false alarm."""
+    wt = "/tmp/seedrun-wt"
+    sh(["git", "-C", REPO, "worktree", "remove", "--force", wt])
+    rc, out = sh(["git", "-C", REPO, "worktree", "add", wt, "HEAD"])
+    if rc != 0:
+        print(out)
         return 2
-    results = {}
-    if os.path.exists(os.path.join(SEEDED, "RESULTS.json")):
-        results = json.load(open(os.path.join(SEEDED, "RESULTS.json")))
-    for name in which:
-        d = os.path.join(SEEDED, name)
-        meta = json.load(open(os.path.join(d, "meta.json")))
-        props = meta.get("check_with") or [meta["property"]]
-        rc, out = sh(["git", "-C", REPO, "apply", os.path.join(d, "patch.diff")])
-        if rc != 0:
-            print(f"[{name}] patch does not apply to /repo HEAD: {out[:300]}")
-            results[name] = dict(status="patch-does-not-apply")
-            continue
-        try:
-            res = {}
-            for prop in props:
-                t0 = time.time()
-                rc, out = sh([os.path.join(HERE, "check"), prop, "--tier", "quick"], cwd=HERE, timeout=5400)
-                viol = [ln for ln in out.splitlines() if ln.startswith("VIOLATION")]
-                res[prop] = dict(exit=rc, violations=viol[:3], wall_s=round(time.time() - t0, 1),
-                                 tail=out.strip().splitlines()[-1][:300] if out.strip() else "")
-                print(f"[{name}] {prop}: exit {rc} {'CAUGHT' if rc == 1 and viol else 'MISSED' if rc == 0 else 'INFRA'} "
-                      f"{viol[0] if viol else ''} ({res[prop]['wall_s']}s)")
-            results[name] = dict(property=meta["property"], checks=res,
-                                 caught=any(v["exit"] == 1 and v["violations"] for v in res.values()),
-                                 with_failing_input=any(v["exit"] == 1 and v["violations"]
-                                                        and not v["violations"][0].endswith("no-failing-input-found")
-                                                        for v in res.values()))
-        finally:
-            sh(["git", "-C", REPO, "checkout", "--", "."])
-    json.dump(results, open(os.path.join(SEEDED, "RESULTS.json"), "w"), indent=1, sort_keys=True)
-    # leave Gen/ and the build in the state of the unchanged tree
-    sh([PY, os.path.join(HERE, "harness", "translate.py")])
+    respath = os.path.join(base, "RESULTS.json")
+    results = json.load(open(respath)) if os.path.exists(respath) else {}
+    env = dict(os.environ, XRS_REPO=wt)
+    try:
+        for name in which:
+            d = os.path.join(base, name)
+            meta = json.load(open(os.path.join(d, "meta.json")))
+            props = meta.get("check_with") or ([meta["property"]] if "property" in meta else meta["checks"])
+            rc, out = sh(["git", "apply", os.path.join(d, "patch.diff")], cwd=wt)
+            if rc != 0:
+                print(f"[{name}] patch does not apply to /repo HEAD: {out[:300]}")
+                results[name] = dict(status="patch-does-not-apply")
+                continue
+            try:
+                res = {}
+                for prop in props:
+                    t0 = time.time()
+                    rc, out = sh([os.path.join(HERE, "check"), prop, "--tier", "quick"], cwd=HERE, env=env, timeout=5400)
+                    viol = [ln for ln in out.splitlines() if ln.startswith("VIOLATION")]
+                    res[prop] = dict(exit=rc, violations=viol[:3], wall_s=round(time.time() - t0, 1),
+                                     tail=out.strip().splitlines()[-1][:300] if out.strip() else "")
+                    verdict = ('CAUGHT' if rc == 1 and viol else 'MISSED' if rc == 0 else 'INFRA') if not expect_clean \
+                        else ('FALSE-ALARM' if rc == 1 else 'quiet' if rc == 0 else 'INFRA')
+                    print(f"[{name}] {prop}: exit {rc} {verdict} {viol[0] if viol else ''} ({res[prop]['wall_s']}s)", flush=True)
+                results[name] = dict(property=meta.get("property", ""), checks=res,
+                                     caught=any(v["exit"] == 1 and v["violations"] for v in res.values()),
+                                     with_failing_input=any(v["exit"] == 1 and v["violations"]
+                                                            and not v["violations"][0].endswith("no-failing-input-found")
+                                                            for v in res.values()))
+            finally:
+                sh(["git", "checkout", "--", "."], cwd=wt)
+            json.dump(results, open(respath, "w"), indent=1, sort_keys=True)
+    finally:
+        sh(["git", "-C", REPO, "worktree", "remove", "--force", wt])
+        # leave Gen/, the build and the evidence in the state of the unchanged tree
+        sh([PY, os.path.join(HERE, "harness", "translate.py")])
+        sh(["git", "checkout", "--", "evidence"], cwd=HERE)
     return 0
 
 
@@ -117,4 +130,8 @@ if __name__ == "__main__":
         sys.exit(0 if all([verify(n) for n in sys.argv[2:]]) else 1)
     if len(sys.argv) >= 2 and sys.argv[1] == "run":
         sys.exit(run(names(sys.argv[2:])))
+    if len(sys.argv) >= 2 and sys.argv[1] == "benign":
+        base = os.path.join(HERE, "benign")
+        which = sys.argv[2:] or sorted(d for d in os.listdir(base) if os.path.isdir(os.path.join(base, d)))
+        sys.exit(run(which, base=base, expect_clean=True))
     print(__doc__)
